@@ -115,6 +115,28 @@ def run(cx):
                 v = norm(g) if g is not None else "False"
                 ok = v in ("is_global_scope", "False", "scope == 'setup' and depth == 0") or (v == "True" and ("all_new and is_global_scope", True) in lexical_conds(pm, c))
                 r.check(ok, f"{q}/VarDecl.global_scope[{v}]", (pm, c), f"`{stmt_key(c)}`", sample=f"{q}: global_scope={v}")
+    # a hoisted name is recorded as declared on every path: otherwise the next plain assignment in the loop body emits a
+    # second, shadowing declaration and the value no longer persists between loop() passes
+    from ..flow import MustFacts
+
+    class Declared(MustFacts):
+        def gen(self, stmt):
+            out = set()
+            for c in ast.walk(stmt):
+                if isinstance(c, ast.Call) and isinstance(c.func, ast.Attribute) and c.func.attr in ("add", "update") and c.args and norm(c.args[0]) in ("name", "{name}", "[name]", "(name,)"):
+                    out.add("declared:" + norm(c.func.value))
+            return out
+
+    mp = pm.func("_make_promotion_decls")
+    mloc = Locals(mp)
+    dset = [k for k, v in mloc.defs.items() if any(isinstance(d, ast.expr) and "'var_declared'" in norm(d) for d in v)]
+    loops = [n for n in walk_local(mp) if isinstance(n, ast.For) and norm(n.target) == "name"]
+    if len(dset) != 1 or len(loops) != 1:
+        raise AnalysisError("_make_promotion_decls: the declared-set or the loop over promoted names was not recognised")
+    an = Declared()
+    o = an.block(loops[0].body, frozenset())
+    ends = [x for x in (o.fall, o.cont) if x is not None]
+    r.check(bool(ends) and all(("declared:" + dset[0]) in e for e in ends), "_make_promotion_decls/every-hoisted-name-recorded-as-declared", (pm, loops[0]), f"some path through the loop over hoisted names does not add the name to `{dset[0]}` (ctx['var_declared']): a later `name = ...` is then emitted as a new declaration that shadows the hoisted variable")
     c03.rule_global_init(cx, "C05-GLOBAL-INIT")
 
     # ---- C05-CONFIG --------------------------------------------------------------------------
@@ -178,6 +200,24 @@ def run(cx):
         names = [callee(c) for c in sc]
         init = "begin" if kind == "parallel" else "init"
         r.check(init in names and names.index(init) < names.index("__redu_lcd_write_aligned"), f"LCD[{kind}]/initialised-before-first-write", (em, em.func("emit")), f"setup() calls {names}")
+    # two devices declared on the same pin *expression*, a variable re-assigned between the two declarations: each
+    # declaration configures the pin its expression denotes where it stands (a declaration nested in a branch is outside
+    # the documented style and not examined)
+    for dev, conf_name in (("Led", "pinMode"), ("Buzzer", "pinMode"), ("Button", "pinMode"), ("Servo", "attach")):
+        da, db = l2.decl_node(dev, name="a", pin="pinv"), l2.decl_node(dev, name="b", pin="pinv")
+        res = pe.emit_program(global_decls=[cls["VarDecl"](name="pinv", c_type="int", expr="5", global_scope=True)], setup=[da, cls["VarAssign"](name="pinv", expr="(pinv + 1)"), db], loop=[])
+        if res.raised:
+            raise AnalysisError(f"emit() raises for two {dev}s on a pin variable")
+        body = l2.functions_of(res.text, ["setup"])["setup"][0]["body"]
+        seq = []
+        for st in body:
+            if st["k"] == "expr" and st["e"][0] == "assign" and show(st["e"][2]) == "pinv":
+                seq.append("pinv=pinv+1")
+            for c in all_calls([st]):
+                if callee(c) == conf_name and call_args(c) and show(call_args(c)[0]) == "pinv":
+                    seq.append(f"{conf_name}(pinv)")
+        okv = "pinv=pinv+1" in seq and f"{conf_name}(pinv)" in seq[seq.index("pinv=pinv+1"):] and f"{conf_name}(pinv)" in seq[:seq.index("pinv=pinv+1")]
+        r.check(okv, f"{dev}[pin-variable-reassigned-between-declarations]/configured-with-current-value", (em, em.func("emit")), f"`pinv=5; a={dev}(pinv); pinv=pinv+1; b={dev}(pinv)`: setup() runs {seq}; each device's pin must be configured with the value the variable has at its declaration (once before and once after the re-assignment)")
     ef = em.func("emit")
     for n in walk_local(ef):
         if isinstance(n, ast.For) and norm(n.iter) in ("setup_body or []", "loop_body or []"):
